@@ -4,7 +4,7 @@
 # Which checks catch them is recorded afterwards by tools/recheck_seeds.py.
 cd /verif
 todo=""
-for d in /tmp/seed_out/C*/[0-9]; do
+for d in /tmp/seed_out/C*/[0-9]*; do
   pid=$(basename $(dirname $d)); i=$(basename $d)
   [ -f $d/patch.diff ] || continue
   [ -d /verif/seeded/$pid-$i ] && continue
